@@ -189,6 +189,7 @@ class Run:
         self.t0 = time.time()
         self.violations = []      # (key, description, replay path)
         self.known_hits = {}
+        self.violation_keys = {}
         self.evaluations = 0
         self.nontrivial = set()
         self.samples = []
@@ -235,8 +236,9 @@ class Run:
                     self.known_hits[k["key"]] = k
                     print(f"KNOWN-FINDING: property={self.pid} {k['what']}")
                 return False
-        if len(self.violations) >= 25:
-            self.violations.append((key, description, None))
+        self.violation_keys[key] = self.violation_keys.get(key, 0) + 1
+        if self.violation_keys[key] > 3 or len(self.violations) >= 40:
+            self.violations.append((key, description, None))     # counted, not printed again
             return True
         h = hashlib.sha1((key + description).encode()).hexdigest()[:10]
         path = os.path.join(REPLAYS, f"{self.pid}-{h}.json")
@@ -273,6 +275,8 @@ class Run:
                   violations=len(self.violations))
         with open(os.path.join(EVID, f"{self.pid}.json"), "w") as f:
             json.dump(ev, f, indent=1, default=_jd)
+        for k, n in sorted(self.violation_keys.items()):
+            print(f"  violation key {k!r}: {n} case(s)")
         print(f"[{self.pid}] tier={self.tier} seed={self.seed} evaluations={self.evaluations} "
               f"nontrivial={len(self.nontrivial)} tlc_states={self.states} traces={self.traces} "
               f"violations={len(self.violations)} known={len(self.known_hits)} drift={self.drift} "
